@@ -103,7 +103,9 @@ def probe_handle(ctx, node, n, producer, exhaustive):
 def run(ctx):
     ch = ctx.ch
     exhaustive = ctx.cfg.get("tier") == "thorough"
-    leg = ch.weighted([3, 1, 1, 1], "leg")
+    leg = ch.weighted([3, 1, 1, 1, 1], "leg")
+    if leg == 4:
+        return scenario_leg(ctx, exhaustive)
     if leg == 3:
         from ..engines.b_builders import run_insert_leg
         run_insert_leg(ctx, probe_handle=lambda c, node, n, producer, ex: (c.probe("handle:" + producer), probe_handle(c, node, n, producer, ex)))
@@ -159,3 +161,99 @@ def run(ctx):
         after(sim)
     except Discard as d:
         ctx.discard = str(d)
+
+
+def scenario_leg(ctx, exhaustive):
+    """Builder histories that change *when* and *how* a handle learns its count:
+    (a) one partial operation object (UnpackTuple / MakeTuple) used for several nodes of different widths;
+    (b) a case whose outputs are refused, after which the conditional's handle is inspected;
+    (c) a container whose last output is linked through the graph API before its outputs are set."""
+    from hugr import ops, tys, val
+    from hugr.build.cond_loop import ConditionalError
+    from hugr.build.dfg import Dfg
+
+    ch = ctx.ch
+    which = ch.draw(3, "scenario")
+    B, Q = tys.Bool, tys.Qubit
+    ctx.profile = {"leg": "scenario", "scenario": which}
+    if which == 0:
+        widths = [ch.draw(4, "width") for _ in range(2 + ch.draw(2, "n-tuples"))]
+        d = Dfg()
+        shared = ops.UnpackTuple()
+        ctx.probe("partial_op_object_reused")
+        for w in widths:
+            elems = [d.load(val.TRUE) for _ in range(w)]
+            tup = d.add_op(ops.MakeTuple(), *elems)
+            how = ch.draw(3, "how")
+            if how == 0:
+                n = d.add_op(shared, tup)
+            elif how == 1:
+                n = d.add(shared(tup))
+            else:
+                n = d.extend(shared(tup))[0]
+            ctx.ev(0, "add UnpackTuple (shared op object)", {"width": w, "how": how}, n.idx)
+            ctx.steps += 1
+            probe_handle(ctx, n, w, "add_op:UnpackTuple-shared-object", exhaustive)
+        return
+    if which == 1:
+        n_out = 1 + ch.draw(3, "n-out")
+        m_out = ch.pick([k for k in range(5) if k != n_out], "m-out")
+        d = Dfg(B)
+        cond = d.add_conditional(d.inputs()[0])
+        with cond.add_case(0) as c0:
+            c0.set_outputs(*[c0.load(val.TRUE) for _ in range(n_out)])
+        c1 = cond.add_case(1)
+        ctx.steps += 2
+        try:
+            c1.set_outputs(*[c1.load(val.TRUE) for _ in range(m_out)])
+            ctx.ev(0, "case 1 set_outputs (wrong length)", m_out, "returned")
+        except ConditionalError:
+            ctx.ev(0, "case 1 set_outputs (wrong length)", m_out, "ConditionalError")
+            ctx.fault("refused_case_outputs")
+        ctx.probe("handle_inspected_after_refused_case")
+        probe_handle(ctx, cond.parent_node, n_out, "conditional-after-refused-case", exhaustive)
+        node = next(c for c in d.hugr.children(d.parent_node) if c.idx == cond.parent_node.idx)
+        probe_handle(ctx, node, n_out, "children()-after-refused-case", False)
+        return
+    # (c) last output linked early through the graph API
+    kind = ch.pick(["dfg", "tailloop", "conditional", "cfg"], "container")
+    n_out = 1 + ch.draw(3, "n-out")
+    d = Dfg(B)
+    (b,) = d.inputs()
+    ctx.probe("container_output_linked_before_outputs_set:" + kind)
+
+    def early_link(container_node):
+        x = d.hugr.add_node(ops.Noop(B), d.parent_node, num_outs=1)
+        d.hugr.add_link(container_node.out(n_out - 1), x.inp(0))
+        ctx.ev(0, "add_link(container.out(last), consumer)", {"kind": kind, "n_out": n_out})
+        ctx.steps += 1
+
+    if kind == "dfg":
+        inner = d.add_nested(b)
+        early_link(inner.parent_node)
+        inner.set_outputs(*[inner.inputs()[0]] * n_out)
+        h = inner.parent_node
+    elif kind == "tailloop":
+        tl = d.add_tail_loop([], [b] if n_out else [])
+        n_out = 1
+        early_link(tl.parent_node)
+        tl.set_loop_outputs(tl.load(val.Unit) if False else tl.add_op(ops.Tag(1, tys.Sum([[], []])),), *tl.inputs())
+        h = tl.parent_node
+    elif kind == "conditional":
+        cond = d.add_conditional(b)
+        early_link(cond.parent_node)
+        for k in (0, 1):
+            with cond.add_case(k) as c:
+                c.set_outputs(*[c.load(val.TRUE) for _ in range(n_out)])
+        h = cond.parent_node
+    else:
+        cfg = d.add_cfg(*[b] * n_out)
+        early_link(cfg.parent_node)
+        with cfg.add_entry() as e:
+            e.set_single_succ_outputs(*e.inputs())
+        cfg.branch_exit(e[0])
+        h = cfg.parent_node
+    ctx.steps += 2
+    probe_handle(ctx, h, n_out, f"{kind}-closed-after-early-link", exhaustive)
+    node = next(c for c in d.hugr.children(d.parent_node) if c.idx == h.idx)
+    probe_handle(ctx, node, n_out, "children()-after-early-link", False)
